@@ -598,7 +598,9 @@ def _finish_two(res, got, ref, p, fn, c, what):
     ok, worst, which = acc.check_complex(gpair, ref, p, TOL, "max")
     res.metrics["err_log2_ulps:" + fn] = worst
     if not ok:
-        res.bad("acc:%s:%s" % (fn, c["a"][0]), "%s = %s; reference (%s, %s); error about 2^%d ulp" % (
+        # the known log-near-the-unit-circle defect loses at most a few bits; anything beyond 2^8 ulp is a different failure
+        kind = "acc-gross" if (fn in ("ln", "log", "log10") and worst > 8) else "acc"
+        res.bad("%s:%s:%s" % (kind, fn, c["a"][0]), "%s = %s; reference (%s, %s); error about 2^%d ulp" % (
             what, str(got)[:160], exact.raw_str(ref[0])[:60], exact.raw_str(ref[1])[:60], worst))
     return res
 
